@@ -189,9 +189,9 @@ func c09Step(si *StepInfo) (interface{}, []*explore.Violation) {
 func runC09(rc *RunCtx) {
 	scn := &Scenario{Name: "c09", Genesis: harness.BuildGenesis(c09Genesis()), T0: harness.T0, Events: c09Events(), StepOracle: c09Step,
 		ExtraStores: nil}
-	depth, budget, maxTraces := 2, 100*time.Second, 1500
+	depth, budget, maxTraces := 3, 100*time.Second, 1500
 	if rc.Thorough() {
-		depth, budget, maxTraces = 3, 20*time.Minute, 20000
+		depth, budget, maxTraces = 4, 20*time.Minute, 20000
 	}
 	runScenarioCheck(rc, scn, depth, budget, maxTraces, "")
 	rc.Cov["cfesignature_msgs_at_msg_server_seam"] = true
